@@ -510,13 +510,14 @@ theorem getD_replicate_space (n i : Nat) : (List.replicate n (0x20 : UInt8)).get
 
 /-- The four shapes of a successful scroll's output. -/
 theorem scrollrect_ichdch_margin (fx : Fixes) (caps : Caps) (tc : Int) (rect : Rect) (r : Int) (hr0 : r ≠ 0)
-    (hs : caps.slrm = true ∧ rect.lines = 1) (hlt : rect.right < tc) :
+    (hs : caps.slrm = true ∧ rect.lines = 1) (hlt : rect.right < tc)
+    (hcg : ¬ (fx.scrollCellGuard = true ∧ rect.right < tc ∧ rect.right < 2)) :
     scrollrect fx caps tc rect 0 r =
       (true, csi ([0x3b] ++ showInt rect.right ++ [0x73]) ++ (scrollLine rect.top rect.left r ++ csi [0x73])) := by
   unfold scrollrect
   rw [if_neg (by intro h; exact hr0 h.2)]
   simp only []
-  rw [if_pos ⟨Or.inl hs, trivial⟩, if_pos hlt, if_pos hlt]
+  rw [if_pos ⟨Or.inl hs, trivial⟩, if_neg hcg, if_pos hlt, if_pos hlt]
   have hl : rect.lines.toNat = 1 := by omega
   simp [hl]
 
@@ -527,7 +528,7 @@ theorem scrollrect_ichdch_full (fx : Fixes) (caps : Caps) (tc : Int) (rect : Rec
   unfold scrollrect
   rw [if_neg (by intro h; exact hr0 h.2)]
   simp only []
-  rw [if_pos ⟨Or.inr hre, trivial⟩, if_neg (by omega), if_neg (by omega)]
+  rw [if_pos ⟨Or.inr hre, trivial⟩, if_neg (by omega), if_neg (by omega), if_neg (by omega)]
   simp
 
 theorem scrollrect_margins_lr (fx : Fixes) (caps : Caps) (tc : Int) (rect : Rect) (d r : Int) (h0 : ¬ (d = 0 ∧ r = 0))
